@@ -150,13 +150,15 @@ def averaged_dose_rows(ctx, tag, avg_model, doses, times, include, inp):
 REGIMEN = dict(dose=2.0, start=1.0, duration=0.5, period=2.0, num=3)
 
 
-def history_independent(ctx, tag, used_obj, fresh_obj, call, outputs, inp, args, cov_names=()):
-    """the object was sampled before (other parameters / times / sample sizes / seeds): a further call must return
-    what a freshly built object returns for the same arguments"""
+def history_independent(ctx, tag, used_obj, fresh_obj, call, outputs, inp, args, box, cov_names=()):
+    """the object was sampled before, and the SAME argument arrays (`box`) are handed over again together with
+    other times / sample sizes / seeds: the further call must return what a freshly built object returns for fresh
+    copies of the original argument values, and must leave the arrays as they were"""
     K.set_world(WORLD)
-    a = canon_rows(call(used_obj), outputs, cov_names)
+    a = canon_rows(call(used_obj, box), outputs, cov_names)
+    box.check(ctx, tag.replace('history_independent', 'arguments_unchanged'), dict(inp, later_call=args))
     K.set_world(WORLD)
-    b = canon_rows(call(fresh_obj), outputs, cov_names)
+    b = canon_rows(call(fresh_obj, K.ArgBox(**box.orig)), outputs, cov_names)
     ok = all(rows_close(x, y) for x, y in zip(a, b))
     ctx.spec(tag, ok, dict(inp, later_call=args), {'used_object': a[0][:3], 'fresh_object': b[0][:3]})
 
@@ -322,8 +324,11 @@ def case_predictive(ctx, chi, rng, k):
     ctx.case('PredictiveModel/%d-outputs/%s' % (len(spec['kinds']), 'dosed' if dosed else 'plain'),
              nontrivial=('PredictiveModel/%s/%d/%d' % (''.join(spec['kinds']), len(times), n1))
              if len(spec['kinds']) > 1 or n1 > 1 else False, sample=inp)
+    times2 = gen_times(rng)
+    box = K.ArgBox(parameters=params, times=times, times2=times2)
     K.set_world(WORLD)
-    df = pm.sample(params, times, n_samples=nS, seed=s, include_regimen=include)
+    df = pm.sample(box['parameters'], box['times'], n_samples=nS, seed=s, include_regimen=include)
+    box.check(ctx, 'C15.arguments_unchanged/PredictiveModel', inp)
     outputs = pm.get_output_names()
     meas, _, doses = canon_rows(df, outputs)
     ts = model_sorted_times(ctx, times)
@@ -338,7 +343,8 @@ def case_predictive(ctx, chi, rng, k):
     ctx.spec('C15.predictive_law/PredictiveModel', rows_close(
         meas, table_from_entries(ctx, 'predictive', outputs, ts, n1, ent_py)), inp)
     # array form agrees with the table
-    arr = K.array_entries(pm.sample(params, times, n_samples=nS, seed=s, return_df=False))
+    arr = K.array_entries(pm.sample(box['parameters'], box['times'], n_samples=nS, seed=s, return_df=False))
+    box.check(ctx, 'C15.arguments_unchanged/PredictiveModel', inp)
     ctx.spec('C15.array_equals_table/PredictiveModel',
              rows_close(meas, table_from_entries(ctx, 'predictive', outputs, ts, n1, arr)), inp)
     # dose rows
@@ -355,12 +361,11 @@ def case_predictive(ctx, chi, rng, k):
     fresh, _, _, _ = build(chi, spec, dosed=dosed)
     if dosed:
         fresh.set_dosing_regimen(**regimen)
-    a2 = {'parameters': [float(x) for x in np.asarray(params) * rng.uniform(0.8, 1.2, len(params))],
-          'times': gen_times(rng), 'n': int(rng.integers(1, 4)), 'seed': int(rng.integers(1 << 31)),
+    a2 = {'times': times2, 'n': int(rng.integers(1, 4)), 'seed': int(rng.integers(1 << 31)),
           'include_regimen': bool(rng.random() < 0.6)}
     history_independent(ctx, 'C15.history_independent/PredictiveModel', pm, fresh,
-                        lambda o: o.sample(a2['parameters'], a2['times'], n_samples=a2['n'], seed=a2['seed'],
-                                           include_regimen=a2['include_regimen']), outputs, inp, a2)
+                        lambda o, b: o.sample(b['parameters'], b['times2'], n_samples=a2['n'], seed=a2['seed'],
+                                              include_regimen=a2['include_regimen']), outputs, inp, a2, box)
 
 
 # ----------------------------------------------------------------------------------------
@@ -400,14 +405,19 @@ def case_population(ctx, chi, rng, k):
     cls = '+'.join(('cov:' if x.get('cov') else '') + x['elem'] + ('' if x.get('centered', True) else '/nc')
                    for x in spec['pop']['subs'])
     ctx.case('PopulationPredictiveModel/' + cls, nontrivial='PopulationPredictiveModel/%s/%d' % (cls, n), sample=inp)
+    n2 = int(rng.integers(1, 5))
+    times2, cov2 = gen_times(rng), c16.pop_covariates(rng, spec['pop'], n2)
+    box = K.ArgBox(parameters=spec['theta'], times=times, covariates=cov, times2=times2, covariates2=cov2)
     K.set_world(WORLD)
     pm.seen = []
     try:
-        df = ppm.sample(spec['theta'], times, n_samples=n, seed=s, covariates=cov, include_regimen=include)
+        df = ppm.sample(box['parameters'], box['times'], n_samples=n, seed=s, covariates=box['covariates'],
+                        include_regimen=include)
     except Exception as e:  # noqa
         ctx.spec('C15.sample_size/PopulationPredictiveModel', False, inp, {'raised': repr(e)[:200]})
         return
     ctx.spec('C15.sample_size/PopulationPredictiveModel', True, inp)
+    box.check(ctx, 'C15.arguments_unchanged/PopulationPredictiveModel', inp)
     outputs = ppm.get_output_names()
     cov_names = pop.get_covariate_names() if cov is not None else []
     meas, covs, doses = canon_rows(df, outputs, cov_names)
@@ -456,13 +466,12 @@ def case_population(ctx, chi, rng, k):
     fpop.set_n_ids(stored)
     if dosed:
         fresh.set_dosing_regimen(dose=2.0, start=1.0, duration=0.5, period=2.0, num=3)
-    n2 = int(rng.integers(1, 5))
-    a2 = {'times': gen_times(rng), 'n': n2, 'seed': int(rng.integers(1 << 31)),
-          'cov': c16.pop_covariates(rng, spec['pop'], n2), 'include_regimen': bool(rng.random() < 0.5)}
+    a2 = {'times': times2, 'n': n2, 'seed': int(rng.integers(1 << 31)), 'cov': cov2,
+          'include_regimen': bool(rng.random() < 0.5)}
     history_independent(ctx, 'C15.history_independent/PopulationPredictiveModel', ppm, fresh,
-                        lambda o: o.sample(spec['theta'], a2['times'], n_samples=a2['n'], seed=a2['seed'],
-                                           covariates=a2['cov'], include_regimen=a2['include_regimen']),
-                        outputs, inp, a2, cov_names)
+                        lambda o, b: o.sample(b['parameters'], b['times2'], n_samples=a2['n'], seed=a2['seed'],
+                                              covariates=b['covariates2'], include_regimen=a2['include_regimen']),
+                        outputs, inp, a2, box, cov_names)
 
 
 def case_population_broadcast_covariates(ctx, chi, rng, k):
@@ -478,8 +487,10 @@ def case_population_broadcast_covariates(ctx, chi, rng, k):
     cov = [float(x) for x in rng.uniform(-1, 1, 2)]
     inp = {'case': k, 'class': 'PopulationPredictiveModel', 'covariates_shape': '(n_cov,)', 'n': n, 'spec': spec}
     ctx.case('PopulationPredictiveModel/covariates-broadcast', nontrivial='cov-broadcast/%d' % n, sample=inp)
+    box = K.ArgBox(parameters=spec['theta'], times=[1.0, 2.0], covariates=cov)
     try:
-        df = ppm.sample(spec['theta'], [1.0, 2.0], n_samples=n, seed=1, covariates=cov)
+        df = ppm.sample(box['parameters'], box['times'], n_samples=n, seed=1, covariates=box['covariates'])
+        box.check(ctx, 'C15.arguments_unchanged/PopulationPredictiveModel', inp)
         _, covs, _ = canon_rows(df, ppm.get_output_names(), pop.get_covariate_names())
         ok = len(covs) == n * 2 and all(abs(v - cov[pop.get_covariate_names().index(nm)]) < 1e-12
                                         for (_, nm, v) in covs)
@@ -528,8 +539,11 @@ def case_prior(ctx, chi, rng, k):
            'dosed': dosed, 'include_regimen': include}
     ctx.case('PriorPredictiveModel/%s' % spec['type'], nontrivial='Prior/%s/%d/%d' % (spec['type'], len(spec['kinds']), n),
              sample=inp)
+    times2 = gen_times(rng)
+    box = K.ArgBox(times=times, times2=times2)
     K.set_world(WORLD)
-    df = prm.sample(times, n_samples=n, seed=s, include_regimen=include)
+    df = prm.sample(box['times'], n_samples=n, seed=s, include_regimen=include)
+    box.check(ctx, 'C15.arguments_unchanged/PriorPredictiveModel', inp)
     outputs = model.get_output_names()
     meas, _, doses = canon_rows(df, outputs)
     ts = model_sorted_times(ctx, times)
@@ -565,11 +579,11 @@ def case_prior(ctx, chi, rng, k):
     fresh = chi.PriorPredictiveModel(fmodel, prior)
     if dosed:
         fresh.set_dosing_regimen(**REGIMEN)
-    a2 = {'times': gen_times(rng), 'n': int(rng.integers(1, 4)), 'seed': int(rng.integers(1 << 30)),
+    a2 = {'times': times2, 'n': int(rng.integers(1, 4)), 'seed': int(rng.integers(1 << 30)),
           'include_regimen': bool(rng.random() < 0.6)}
     history_independent(ctx, 'C15.history_independent/PriorPredictiveModel', prm, fresh,
-                        lambda o: o.sample(a2['times'], n_samples=a2['n'], seed=a2['seed'],
-                                           include_regimen=a2['include_regimen']), outputs, inp, a2)
+                        lambda o, b: o.sample(b['times2'], n_samples=a2['n'], seed=a2['seed'],
+                                              include_regimen=a2['include_regimen']), outputs, inp, a2, box)
 
 
 # ----------------------------------------------------------------------------------------
@@ -654,7 +668,9 @@ def case_posterior(ctx, chi, rng, k, layout=None):
                    earlier_calls_on_this_object=history)
         K.set_world(WORLD)
         pm.seen = []
-        df = ppm.sample(times, n_samples=n, individual=individual, seed=s, include_regimen=include)
+        box = K.ArgBox(times=times)
+        df = ppm.sample(box['times'], n_samples=n, individual=individual, seed=s, include_regimen=include)
+        box.check(ctx, 'C15.arguments_unchanged/PosteriorPredictiveModel', inp)
         outputs = model.get_output_names()
         meas, _, doses = canon_rows(df, outputs)
         ts = model_sorted_times(ctx, times)
@@ -762,7 +778,9 @@ def case_pam(ctx, chi, rng, k):
                'earlier_calls_on_this_object': history}
         K.set_world(world)
         pm.seen = []
-        df = pam.sample(times, n_samples=n, individual=individual, seed=s)
+        box = K.ArgBox(times=times)
+        df = pam.sample(box['times'], n_samples=n, individual=individual, seed=s)
+        box.check(ctx, 'C15.arguments_unchanged/PAMPredictiveModel', inp)
         outputs = model.get_output_names()
         meas, _, _ = canon_rows(df, outputs)
         ts = model_sorted_times(ctx, times)
@@ -821,6 +839,8 @@ def case_pam(ctx, chi, rng, k):
 def case_nids(ctx, chi, rng, k):
     stored = int(rng.integers(1, 5))
     n = int(rng.integers(1, 6))
+    if rng.random() < 0.3:
+        n = stored                      # as many samples as stored individuals: nothing is broadcast or cut
     bare = bool(rng.random() < 0.4)
     which = str(rng.choice(['pooled', 'hetero']))
     mech = toy.ToyModel(1, 1, int(rng.integers(100)))
@@ -849,9 +869,13 @@ def case_nids(ctx, chi, rng, k):
            'n': n, 'theta': theta}
     ctx.case('n_ids/%s/%s' % (which, 'bare' if bare else 'composed'),
              nontrivial='nids/%s/%s/%d/%d' % (which, bare, stored, n) if n != stored else False, sample=inp)
+    box = K.ArgBox(parameters=theta, times=times)
     try:
-        arr = np.asarray(ppm.sample(theta, times, n_samples=n, seed=3, return_df=False), float)
+        arr = np.asarray(ppm.sample(box['parameters'], box['times'], n_samples=n, seed=3, return_df=False), float)
         raised = None
+        # the caller's population parameters (float array) are what they were: the next call draws from the same
+        # individuals
+        box.check(ctx, 'C15.arguments_unchanged/PopulationPredictiveModel', inp)
     except Exception as e:  # noqa
         raised = core.errkind(e)
         ctx.errkinds.add(raised)
@@ -892,7 +916,7 @@ def corpus(ctx, chi):
 def run(ctx):
     chi = core.import_chi()
     corpus(ctx, chi)
-    reps = 120 if ctx.tier == 'quick' else 1600
+    reps = 120 if ctx.tier == 'quick' else 1500
     k = 0
     for rep in range(reps):
         for case in CASES:
